@@ -26,6 +26,9 @@ CHECKS = {
  "C08": dict(engine="integ", technique="model-based property testing of message delivery (Hypothesis-generated trigger sets and burst histories; round-trip and context-parent oracles)",
    text="Exploration: 800 (quick) / 30k (thorough) generated cases - event triggers (shared/distinct types, filter expressions, kwargs, several decorators per function, sleeping runs) under bursts of up to 20 events, MQTT and webhook triggers through recording fakes of the Home Assistant subscription boundary - in both subsystems; per decorator the ordered runs and their kwargs must equal the matching messages, runs start at the fire instant, emitted events/state changes/service calls carry exactly the given parameters and a context parented to the occurrence, and subscriptions are single and released on unload.",
    note="Home Assistant's event bus, MQTT client and HTTP webhook view are trusted; only the boundary functions mqtt.async_subscribe / webhook.async_register are replaced by fakes.", ref="2.C08"),
+ "C16": dict(engine="integ", technique="model-based property testing of operation sequences against a dictionary model of the state machine",
+   text="Exploration: 1.2k (quick) / 40k (thorough) Hypothesis-generated sequences of 3-25 state-variable operations (read, attribute read, assignment, attribute assignment, state.set in every argument combination, setattr, delete, exist, names, getattr, snapshots, precedence of services and Python variables, external changes) issued from script code in the real integration; after every step the value or exception type seen by the script and Home Assistant's state machine are compared with a dict model.",
+   note="Trusts Home Assistant's state machine for storage; only valid entity ids and short state strings; state.set with neither value nor attributes on a missing entity is outside the documented contract and not generated.", ref="2.C16"),
 }
 NOT_YET = "check not built yet in this round (see DESIGN.md section 2 for the plan)"
 props = [json.loads(l)["id"] for l in open(os.path.join(V, "properties.jsonl"))]
